@@ -14,7 +14,12 @@ PoolPP == <<
   D(<<2, 1, 4, 7, 4, 8, 3, 6, 4, 7>>), D(<<3, 1>>), Ng(D(<<1>>)),                                              \* 7-9
   I(16, <<8, 0, 0, 0, 0, 0, 0, 0, 0, 0, 0, 0, 0, 0, 0, 0>>, FALSE),                                            \* 10
   D(<<9, 2, 2, 3, 3, 7, 2, 0, 3, 6, 8, 5, 4, 7, 7, 5, 8, 0, 7>>), I(10, <<1>>, TRUE),                          \* 11-12
-  D(<<4, 2, 9, 4, 9, 6, 7, 2, 9, 5>>), D(<<3>>) >>                                                             \* 13-14
+  D(<<4, 2, 9, 4, 9, 6, 7, 2, 9, 5>>), D(<<3>>),                                                               \* 13-14
+  \* unsuffixed NON-DECIMAL literals in [2^31, 2^32): unsigned int in phase 7, but intmax_t in #if
+  I(16, <<8, 0, 0, 0, 0, 0, 0, 0>>, FALSE), I(16, <<8, 0, 0, 0, 0, 0, 0, 1>>, FALSE),                          \* 15-16
+  I(8, <<0, 3, 7, 7, 7, 7, 7, 7, 7, 7, 7, 7>>, FALSE), I(8, <<0, 2, 0, 0, 0, 0, 0, 0, 0, 0, 0, 0>>, FALSE),    \* 17-18
+  I(16, F8 \o F8, FALSE), Ng(D(<<7>>)),                                                                        \* 19-20
+  I(2, <<1>> \o [i \in 1..31 |-> 0], FALSE) >>                                                                 \* 21
 
 L(i)   == Node("lit", "", i)
 Dn(m)  == Node("def", m, 0)        \* defined(M)
@@ -26,6 +31,15 @@ Un(op) == Node("un", op, 0)
 Tn     == Node("tern", "", 0)
 C(pre) == [pre |-> pre]
 DivZ   == <<Bn("/"), L(2), L(1)>>                                      \* 1 / 0
+\* signedness-sensitive uses of a literal h: compared with -1 in every direction, divided into a negative
+\* number, negated / complemented and compared with 0, negated and shifted right, minus a larger literal.
+\* (h is intmax_t in #if unless it has a u suffix or does not fit; -1 is L(9), -7 is L(20), 0 is L(1))
+SignFamily(h) == <<
+  C(<<Bn(">"), L(h), L(9)>>), C(<<Bn(">="), L(h), L(9)>>), C(<<Bn("<"), L(9), L(h)>>), C(<<Bn("<="), L(9), L(h)>>),
+  C(<<Bn("=="), L(h), L(9)>>), C(<<Bn("<"), L(h), L(9)>>),
+  C(<<Bn("=="), Bn("%"), L(20), L(h), L(20)>>), C(<<Bn("=="), Bn("/"), L(20), L(h), L(1)>>),
+  C(<<Bn("<"), Un("-"), L(h), L(1)>>), C(<<Bn("<"), Un("~"), L(h), L(1)>>),
+  C(<<Bn("<"), Bn(">>"), Un("-"), L(h), L(2), L(1)>>), C(<<Bn("<"), Bn("-"), L(h), L(16), L(1)>>) >>
 CondPool == <<
   C(<<L(2)>>), C(<<L(1)>>), C(<<Dn("A")>>), C(<<Un("!"), Dn("A")>>), C(<<Db("B")>>),                    \*  1- 5
   C(<<Bn(">"), Id("A"), L(1)>>), C(<<Bn(">"), L(4), L(1)>>), C(<<Bn(">"), L(5), L(1)>>),                 \*  6- 8
@@ -35,6 +49,8 @@ CondPool == <<
   C(<<Lg("&&"), Dn("A"), Bn("=="), Id("A"), L(3)>>), C(<<Bn(">"), Bn("<<"), L(2), L(8), L(1)>>),         \* 17-18
   C(<<Bn(">"), Id("N"), L(1)>>), C(<<Tn, L(1)>> \o DivZ \o <<L(2)>>),                                    \* 19-20
   C(<<Lg("||"), Dn("Q"), Un("!"), Dn("A")>>), C(<<Bn(">"), L(13), L(1)>>) >>                             \* 21-22
+   \o SignFamily(15) \o SignFamily(16) \o SignFamily(5) \o SignFamily(17) \o SignFamily(18) \o SignFamily(21)
+   \o SignFamily(10) \o SignFamily(19) \o SignFamily(13)
 
 Obj(name, body, lit) == [name |-> name, def |-> Def(FALSE, <<>>, FALSE, body), lit |-> lit]
 Fun(name, ps, va, body) == [name |-> name, def |-> Def(TRUE, ps, va, body), lit |-> 0]
@@ -66,6 +82,8 @@ TextPool == <<
 ASSUME PrintT(<<"P", ToJson([lits |-> PoolPP, conds |-> CondPool, defs |-> DefPool, texts |-> TextPool])>>)
 
 AllConds == 1..Len(CondPool)
+BaseConds == 1..22
+SignConds == 23..Len(CondPool)
 AllDefs  == 1..Len(DefPool)
 AllTexts == 1..Len(TextPool)
 AllNames == {"A", "B", "F", "Q"}
